@@ -15,9 +15,15 @@ RULE = ("kind ns (modelled): a seeded random parser of 1-3 typed arguments under
         "parse_object whose values are drawn per type: the canonical Python value, the same with scalars as text ('1', "
         "'true', 'null', enum names), with other container kinds (tuple/list/set swapped, duplicates for sets, str or float "
         "keys for Dict[int,_]), the whole value as JSON/YAML text, or junk from a pool; a curated list of Union shapes known to "
-        "re-select is always included. kind x (spec only): paths, registered and restricted types, dataclasses, subclass "
-        "specs and the modelled types through the argv and string channels incl. list append, bare and under "
-        "Optional/List/Dict/Tuple/Union. non-trivial = the first parse is accepted and some value changed representation or "
+        "re-select is always included. kind x (spec only): paths, registered types (complex, timedelta incl. durations of exactly one day "
+        "and negative ones, range, Decimal, UUID, pathlib.Path; also given as Python instances), restricted types, Enum, "
+        "dataclasses, subclass specs and the modelled types through the argv and string channels incl. list append, bare and "
+        "under Optional/List/Dict/Tuple/Set/Union; and parsers with 2-4 options whose names are prefix-related "
+        "(model/model_ema/mod, opt/optim, k/k2/k2b, ...), most of them subclass-typed (two class families with "
+        "**kwargs-forwarding subclasses) with lazy_instance defaults, the command line / object / string switching classes and "
+        "setting init_args in every spelling (--name=Cls, --name.class_path, --name.p, --name.init_args.p, JSON spec). Every x "
+        "case also runs the dump leg: dump(cfg), parse_string of it compared with cfg, and the dump of that compared byte for "
+        "byte. non-trivial = the first parse is accepted and some value changed representation or "
         "is a container; distinct = distinct (parser, input)")
 TRUSTED = [
     "Coq 8.16.1 kernel + vm_compute",
@@ -37,7 +43,8 @@ ASSUMPTIONS = [
     "declared defaults of list-append arguments conform to their type (parse_args never checks an overridden default)",
     "dict objects carry no dotted keys and no scalar for a group key; parsers have no environment, config-file argument, "
     "subcommand or link (those are C04/C06/C15/C17)",
-    "kind x: equality of opaque values (paths, registered-type instances) is equality of (type name, repr / relative -> absolute path)",
+    "kind x: equality of opaque values (paths, registered-type instances) is equality of (type name, repr / relative -> absolute "
+    "path); a Decimal is compared by value (Decimal('1.50') == Decimal('1.5')), as Python does",
 ]
 EXHAUSTIVE = {"quick": False, "thorough": False}
 FINDING_CLASSES = {1: "union-reselects-member", 2: "union-reselects-member", 3: "union-dump-wrong-member", 4: "set-dump-order"}
@@ -960,9 +967,12 @@ META = {
                   "are tied to the real parser by running parse_object / validate / parse_object(cfg) on generated parsers and "
                   "inputs and evaluating model- and spec-agreement inside Coq.",
     "level_note": "Only exercised by the correspondence (spec judged in Coq, no model): paths, registered and restricted types, "
-                  "dataclasses, subclass specs, the argv and string channels, list append, and the as_dict() form of the re-parse "
-                  "(the model re-parses the flat key/value list). Not covered here: the dump / re-parse / dump clause of the "
-                  "property (C01 proves serialize/adapt inversion), environment, config files, subcommands, links. Trusted: Coq "
+                  "Enum, dataclasses, subclass specs with defaults under prefix-related option names, the argv and string channels, list "
+                  "append, the as_dict() form of the re-parse (the model re-parses the flat key/value list), and the whole dump / "
+                  "parse_string / dump clause of the property (observed for every such case: the configuration read back must equal "
+                  "the configuration and the second dump must be byte-identical; no theorem about serialisation here, C01 proves "
+                  "serialize/adapt inversion for the plain grammar). Open findings on that leg: union-dump-wrong-member, "
+                  "set-dump-order (fix proposed). Not covered: environment, config files, subcommands, links. Trusted: Coq "
                   "kernel/VM; the hand-written models outside the generated cases; the observation harness; the real text "
                   "readers, whose answers are fed to the model per case. No axioms.",
     "technique": "Rocq proof by structural induction on the type grammar and on lists (fixed point of a faithful Gallina model of "
